@@ -32,9 +32,10 @@ def _solve(task):
     try:
         # portfolio: the tactic-based solver (what the z3 CLI runs), then the plain SMT core, then E-matching only
         makers = (
-            ("default-tactic", lambda: z3.Tactic("default").solver(), {}, 0.5),
-            ("smt-core", lambda: z3.SimpleSolver(), {}, 0.3),
-            ("ematching-only", lambda: z3.SimpleSolver(), {"smt.mbqi": False}, 0.2),
+            ("default-tactic", lambda: z3.Tactic("default").solver(), {}, 0.3),
+            ("combined", lambda: z3.Solver(), {}, 0.3),  # what the z3 command line runs
+            ("smt-core", lambda: z3.SimpleSolver(), {}, 0.25),
+            ("ematching-only", lambda: z3.SimpleSolver(), {"smt.mbqi": False}, 0.15),
         )
         z3.set_param("smt.random_seed", 0)
         for name, mk, params, share in makers:
